@@ -240,7 +240,13 @@ def check_combinators(fx, rep, rule):
                     if o(("is", pos3, "Some")):
                         return call("std::ops::Index::index", b_, ("adt", "RangeFrom", "RangeFrom", (("start", mk_payload(pos3, "Some", "0")),)))
                     return ("lit", "bytes", b"")
-                bad, n = fc.compare_paths(res, refc, lambda st, out: out[1])
+                def norm_empty(t_):
+                    # `&x[x.len()..]` is the empty slice
+                    if t_[0] == "call" and t_[1] == "std::ops::Index::index" and len(t_[2]) == 2 and t_[2][1][0] == "adt" and t_[2][1][1] == "RangeFrom" \
+                            and dict(t_[2][1][3]).get("start") == ("call", "core::slice::len", (t_[2][0],)):
+                        return ("lit", "bytes", b"")
+                    return None
+                bad, n = fc.compare_paths(res, refc, lambda st, out: fc.rewrite(out[1], norm_empty))
                 t = M.closure_term(sy, clo, 1, S.St(), {"sp": "?"})
                 good = not bad and t == ("not", call(rp("is_newline"), ("bound", 0)))
             rep.check(rule, "%s/consume_leading_newlines" % rule, good, loc=F.short_file(fx.bodies[cl[0]]["sp"]),
